@@ -42,3 +42,8 @@ Definition mk_fcase (k : case) (func : list N) (rows : option (list grow)) : fca
 Require Import UV.C15.GraphText.
 Definition mk_tcase (k : case) (func : option (list N)) (lines : list (list N)) : tcase :=
   {| tk_case := k; tk_func := func; tk_lines := lines |}.
+
+Require Import UV.C15.BackTrace.
+Definition bt_ (key : list int) (hit : int) (t : option (N * N * N)) : pbt := (map n_ key, n_ hit, t).
+Definition mk_bcase (k : case) (func : list N) (printed : list pbt) : bcase :=
+  {| bk_case := k; bk_func := func; bk_printed := printed |}.
